@@ -41,7 +41,9 @@ def smooth_axis_monotone(data, window=15, max_iter=1000):
     gradient = np.diff(smooth)
 
     for _ in range(max_iter):
-        if np.abs(np.sum(gradient)) == np.sum(np.abs(gradient)):
+        # (compare signs: in sums, small differences of the other sign
+        # are lost to rounding)
+        if np.all(gradient >= 0) or np.all(gradient <= 0):
             break
         window = window * 2 + 1
         smooth = smooth_axis(data, window=window)
